@@ -235,21 +235,23 @@ impl CustomCode for RemoteErr {
 /// and later deserialize is only an opaque HANDLE of the same length.  The handle is itself a valid private-key
 /// encoding of the group (a decoy), so that code which wrongly interprets the serialized form as the key itself does
 /// not fail loudly but computes with the wrong key - and is caught by the differential oracle.
-pub struct Remote<KG: KeGroup> {
+pub struct Remote<KG: KeGroup, L: ArrayLength<u8> = <KG as KeGroup>::SkLen> {
     real: PrivateKey<KG>,
-    handle: GenericArray<u8, KG::SkLen>,
+    /// what the key serializes to: L = SkLen (a decoy key or opaque bytes, see HANDLE_STYLE), L = U0 (nothing at all:
+    /// the form the crate's documentation shows for HSM-held keys), L = SkLen + 8 (a tagged, longer handle)
+    handle: GenericArray<u8, L>,
 }
 thread_local! {
     /// handle bytes -> real private key bytes (the "key store")
     static HANDLES: RefCell<std::collections::HashMap<Vec<u8>, Vec<u8>>> = RefCell::new(std::collections::HashMap::new());
 }
-impl<KG: KeGroup> Clone for Remote<KG> {
+impl<KG: KeGroup, L: ArrayLength<u8>> Clone for Remote<KG, L> {
     fn clone(&self) -> Self {
         SK_LOG.with(|l| l.borrow_mut().push("clone"));
         Remote { real: self.real.clone(), handle: self.handle.clone() }
     }
 }
-impl<KG: KeGroup> Remote<KG> {
+impl<KG: KeGroup, L: ArrayLength<u8>> Remote<KG, L> {
     /// fallible interface call: counted, and fails if it is the armed n-th one
     fn tick(name: &'static str) -> Result<(), InternalError<RemoteErr>> {
         SK_LOG.with(|l| l.borrow_mut().push(name));
@@ -270,21 +272,33 @@ impl<KG: KeGroup> Remote<KG> {
         let real = PrivateKey::<KG>::deserialize(sk).map_err(ie)?;
         // decoy handle: a valid private key of the group derived from the real key bytes
         let decoy = KG::derive_auth_keypair::<CS>(GenericArray::clone_from_slice(sk)).map_err(ie)?;
-        let mut handle = KG::serialize_sk(decoy);
+        let mut base = KG::serialize_sk(decoy);
         if HANDLE_STYLE.with(|h| *h.borrow()) == 1 {
             // opaque: 0xff in the first and last byte is no valid scalar of any supported group (>= the order in either
             // byte order; not clamped for Curve25519); the middle still identifies the key
-            let n = handle.len();
-            handle[0] = 0xff;
-            handle[n - 1] = 0xff;
+            let n = base.len();
+            base[0] = 0xff;
+            base[n - 1] = 0xff;
+        }
+        // fit to the handle length: empty (the key store then holds ONE current key under the empty handle), the base
+        // handle itself, or the base handle behind a tag of 0xa5 bytes
+        let mut handle = GenericArray::<u8, L>::default();
+        let (hl, bl) = (handle.len(), base.len());
+        if hl >= bl {
+            for b in handle[..hl - bl].iter_mut() {
+                *b = 0xa5;
+            }
+            handle[hl - bl..].copy_from_slice(&base);
+        } else {
+            handle.copy_from_slice(&base[..hl]);
         }
         HANDLES.with(|h| h.borrow_mut().insert(handle.to_vec(), sk.to_vec()));
         Ok(Remote { real, handle })
     }
 }
-impl<KG: KeGroup> SecretKey<KG> for Remote<KG> {
+impl<KG: KeGroup, L: ArrayLength<u8>> SecretKey<KG> for Remote<KG, L> {
     type Error = RemoteErr;
-    type Len = KG::SkLen;
+    type Len = L;
     fn diffie_hellman(&self, pk: PublicKey<KG>) -> Result<GenericArray<u8, KG::PkLen>, InternalError<RemoteErr>> {
         Self::tick("diffie_hellman")?;
         self.real.diffie_hellman(pk).map_err(InternalError::into_custom)
@@ -686,42 +700,52 @@ macro_rules! suite {
     };
 }
 
+/// marker types: the same suite with an external key of another serialized length
+pub struct Len0<S>(pub S);
+pub struct LenLong<S>(pub S);
 macro_rules! remote {
     ($name:ident, $ke:ty) => {
-        impl RemoteSuite for $name {
+        remote_impl!($name, $name, $ke, <$ke as KeGroup>::SkLen);
+        remote_impl!(Len0<$name>, $name, $ke, generic_array::typenum::U0);
+        remote_impl!(LenLong<$name>, $name, $ke, generic_array::typenum::Sum<<$ke as KeGroup>::SkLen, generic_array::typenum::U8>);
+    };
+}
+macro_rules! remote_impl {
+    ($wrapper:ty, $name:ident, $ke:ty, $len:ty) => {
+        impl RemoteSuite for $wrapper {
             fn r_handle(&self, sk: &[u8]) -> R<Vec<u8>> {
-                Ok(Remote::<$ke>::store::<<$name as CipherSuite>::OprfCs>(sk)?.handle.to_vec())
+                Ok(Remote::<$ke, $len>::store::<<$name as CipherSuite>::OprfCs>(sk)?.handle.to_vec())
             }
             fn r_keypair(&self, sk: &[u8], fail_at: Option<usize>) -> (R<Vec<u8>>, Vec<String>) {
-                let inner = match Remote::<$ke>::store::<<$name as CipherSuite>::OprfCs>(sk) {
+                let inner = match Remote::<$ke, $len>::store::<<$name as CipherSuite>::OprfCs>(sk) {
                     Ok(k) => k,
                     Err(e) => return (Err(e), vec![]),
                 };
                 sk_arm(fail_at);
-                let r = KeyPair::<$ke, Remote<$ke>>::from_private_key(inner).map(|kp| kp.public().serialize().to_vec()).map_err(pe);
+                let r = KeyPair::<$ke, Remote<$ke, $len>>::from_private_key(inner).map(|kp| kp.public().serialize().to_vec()).map_err(pe);
                 (r, sk_disarm())
             }
             fn r_setup_with_key(&self, t: &mut Tape, sk: &[u8], fail_at: Option<usize>) -> (R<Vec<u8>>, Vec<String>) {
-                let inner = match Remote::<$ke>::store::<<$name as CipherSuite>::OprfCs>(sk) {
+                let inner = match Remote::<$ke, $len>::store::<<$name as CipherSuite>::OprfCs>(sk) {
                     Ok(k) => k,
                     Err(e) => return (Err(e), vec![]),
                 };
-                let kp = match KeyPair::<$ke, Remote<$ke>>::from_private_key(inner) {
+                let kp = match KeyPair::<$ke, Remote<$ke, $len>>::from_private_key(inner) {
                     Ok(k) => k,
                     Err(e) => return (Err(pe(e)), vec![]),
                 };
                 sk_arm(fail_at);
-                let s = ServerSetup::<$name, Remote<$ke>>::new_with_key(t, kp);
+                let s = ServerSetup::<$name, Remote<$ke, $len>>::new_with_key(t, kp);
                 let log = sk_disarm();
                 (Ok(s.serialize().to_vec()), log)
             }
             fn r_setup_recode(&self, setup: &[u8], fail_at: Option<usize>) -> (R<Vec<u8>>, Vec<String>) {
                 sk_arm(fail_at);
-                let r = ServerSetup::<$name, Remote<$ke>>::deserialize(setup).map(|s| s.serialize().to_vec()).map_err(pe);
+                let r = ServerSetup::<$name, Remote<$ke, $len>>::deserialize(setup).map(|s| s.serialize().to_vec()).map_err(pe);
                 (r, sk_disarm())
             }
             fn r_sreg_start(&self, setup: &[u8], req: &Blob, cid: &[u8], fail_at: Option<usize>) -> (R<Vec<u8>>, Vec<String>) {
-                let s = match ServerSetup::<$name, Remote<$ke>>::deserialize(setup) {
+                let s = match ServerSetup::<$name, Remote<$ke, $len>>::deserialize(setup) {
                     Ok(s) => s,
                     Err(e) => return (Err(pe(e)), vec![]),
                 };
@@ -734,7 +758,7 @@ macro_rules! remote {
                 (r, sk_disarm())
             }
             fn r_slogin_start(&self, t: &mut Tape, setup: &[u8], file: Option<&Blob>, req: &Blob, cid: &[u8], ctx: Ob, idu: Ob, ids: Ob, fail_at: Option<usize>) -> (R<(Vec<u8>, Vec<u8>)>, Vec<String>) {
-                let s = match ServerSetup::<$name, Remote<$ke>>::deserialize(setup) {
+                let s = match ServerSetup::<$name, Remote<$ke, $len>>::deserialize(setup) {
                     Ok(s) => s,
                     Err(e) => return (Err(pe(e)), vec![]),
                 };
@@ -789,6 +813,14 @@ pub fn remote_suites() -> Vec<&'static dyn RemoteSuite> {
     vec![&RisRis, &RisC25, &P256Ris, &P256C25, &RisP256, &P256P256, &P384Ris, &P384C25, &P521Ris, &P521C25, &P384P256, &P521P256,
          &RisP384, &P256P384, &P384P384, &P521P384, &RisP521, &P256P521, &P384P521, &P521P521]
 }
+pub fn remote_suites_len0() -> Vec<&'static dyn RemoteSuite> {
+    vec![&Len0(RisRis), &Len0(RisC25), &Len0(P256Ris), &Len0(P256C25), &Len0(RisP256), &Len0(P256P256), &Len0(P384Ris), &Len0(P384C25), &Len0(P521Ris), &Len0(P521C25), &Len0(P384P256), &Len0(P521P256),
+         &Len0(RisP384), &Len0(P256P384), &Len0(P384P384), &Len0(P521P384), &Len0(RisP521), &Len0(P256P521), &Len0(P384P521), &Len0(P521P521)]
+}
+pub fn remote_suites_long() -> Vec<&'static dyn RemoteSuite> {
+    vec![&LenLong(RisRis), &LenLong(RisC25), &LenLong(P256Ris), &LenLong(P256C25), &LenLong(RisP256), &LenLong(P256P256), &LenLong(P384Ris), &LenLong(P384C25), &LenLong(P521Ris), &LenLong(P521C25), &LenLong(P384P256), &LenLong(P521P256),
+         &LenLong(RisP384), &LenLong(P256P384), &LenLong(P384P384), &LenLong(P521P384), &LenLong(RisP521), &LenLong(P256P521), &LenLong(P384P521), &LenLong(P521P521)]
+}
 
 pub mod probe {
     use super::*;
@@ -819,6 +851,13 @@ pub fn suite_by_name(family: &str, name: &str) -> Option<&'static dyn Suite> {
     };
     l.into_iter().find(|s| s.name() == name)
 }
+/// the external-key driver of a suite for the handle style currently selected on this thread (remote_handle_style):
+/// styles 0 and 1 serialize to SkLen bytes, 2 to nothing (Len = U0), 3 to SkLen + 8 bytes
 pub fn remote_by_name(name: &str) -> Option<&'static dyn RemoteSuite> {
-    suites().iter().position(|s| s.name() == name).map(|i| remote_suites()[i])
+    let style = HANDLE_STYLE.with(|h| *h.borrow());
+    suites().iter().position(|s| s.name() == name).map(|i| match style {
+        2 => remote_suites_len0()[i],
+        3 => remote_suites_long()[i],
+        _ => remote_suites()[i],
+    })
 }
